@@ -36,7 +36,7 @@ func TestC15(t *testing.T) {
 
 	// (2) fault enumeration
 	kinds := []string{"plus1", "double", "minus1"}
-	r.Parallel(t, "fault-enumeration", r.Cfg.pick(48, 1500), func(t *testing.T, idx int, rng *rand.Rand) {
+	r.Parallel(t, "fault-enumeration", r.Cfg.pick(80, 1500), func(t *testing.T, idx int, rng *rand.Rand) {
 		base := genPrioScenario(rng, prioGen{Vers: allVers, Dividers: []string{"fair", "rate", "revfair", "hashw"}, Mode: "general", MaxH: 20})
 		for base.H > 24 {
 			base = genPrioScenario(rng, prioGen{Vers: allVers, Dividers: []string{"fair", "rate", "revfair", "hashw"}, Mode: "general", MaxH: 20})
